@@ -5,7 +5,7 @@ property theorems in `Props/C07.lean` are assembled from these.
 import TraitsVerif.Model.TraitSet
 import TraitsVerif.Lemmas.SetPy
 set_option linter.unusedSectionVars false
-namespace TraitsVerif.Model
+namespace TraitsVerif.Model.SetM
 open TraitsVerif TraitsVerif.Py
 open TraitsVerif.Py.PSet
 variable {α : Type} [DecidableEq α]
@@ -488,4 +488,4 @@ theorem set_step_valid_preserved (v : Callback α α) (s : PSet α) (op : Op α)
       · exact hval z h1.1
       · exact hv z h1.1
 
-end TraitsVerif.Model
+end TraitsVerif.Model.SetM
